@@ -24,20 +24,33 @@ type (
 	DirEntry  = os.DirEntry
 	PathError = os.PathError
 	LinkError = os.LinkError
-	File      = os.File
 )
 
 const (
-	ModeDir     = os.ModeDir
-	ModeSymlink = os.ModeSymlink
-	ModeType    = os.ModeType
-	O_RDONLY    = os.O_RDONLY
-	O_WRONLY    = os.O_WRONLY
-	O_RDWR      = os.O_RDWR
-	O_CREATE    = os.O_CREATE
-	O_TRUNC     = os.O_TRUNC
-	O_EXCL      = os.O_EXCL
-	O_APPEND    = os.O_APPEND
+	ModeDir        = os.ModeDir
+	ModeSymlink    = os.ModeSymlink
+	ModeType       = os.ModeType
+	O_RDONLY       = os.O_RDONLY
+	O_WRONLY       = os.O_WRONLY
+	O_RDWR         = os.O_RDWR
+	O_CREATE       = os.O_CREATE
+	O_TRUNC        = os.O_TRUNC
+	O_EXCL         = os.O_EXCL
+	O_APPEND       = os.O_APPEND
+	O_SYNC         = os.O_SYNC
+	ModeAppend     = os.ModeAppend
+	ModeExclusive  = os.ModeExclusive
+	ModeTemporary  = os.ModeTemporary
+	ModeDevice     = os.ModeDevice
+	ModeNamedPipe  = os.ModeNamedPipe
+	ModeSocket     = os.ModeSocket
+	ModeSetuid     = os.ModeSetuid
+	ModeSetgid     = os.ModeSetgid
+	ModeCharDevice = os.ModeCharDevice
+	ModeSticky     = os.ModeSticky
+	ModeIrregular  = os.ModeIrregular
+	PathSeparator  = os.PathSeparator
+	DevNull        = os.DevNull
 )
 
 func IsExist(err error) bool      { return os.IsExist(err) }
@@ -50,6 +63,17 @@ func Readlink(name string) (string, error)    { return os.Readlink(name) }
 func ReadDir(name string) ([]DirEntry, error) { return os.ReadDir(name) }
 func ReadFile(name string) ([]byte, error)    { return os.ReadFile(name) }
 func Getpid() int                             { return os.Getpid() }
+func Getppid() int                            { return os.Getppid() }
+func Getuid() int                             { return os.Getuid() }
+func Geteuid() int                            { return os.Geteuid() }
+func Getgid() int                             { return os.Getgid() }
+func Getegid() int                            { return os.Getegid() }
+func Getenv(k string) string                  { return os.Getenv(k) }
+func LookupEnv(k string) (string, bool)       { return os.LookupEnv(k) }
+func Getwd() (string, error)                  { return os.Getwd() }
+func Executable() (string, error)             { return os.Executable() }
+func IsTimeout(err error) bool                { return os.IsTimeout(err) }
+func IsPathSeparator(c uint8) bool            { return os.IsPathSeparator(c) }
 func Hostname() (string, error)               { return os.Hostname() }
 func TempDir() string                         { return os.TempDir() }
 func DirFS(dir string) fs.FS                  { return os.DirFS(dir) }
